@@ -325,6 +325,15 @@ func runWorkflowJob(job *Job, res *Result) {
 	if spec == nil {
 		spec = catalog(job.Scen)
 		res.Scenario = job.Scen.String()
+		if job.Scen.AbsSrc {
+			for i := range spec.Procs {
+				if spec.Procs[i].Kind == "src" {
+					for k, it := range spec.Procs[i].Items {
+						spec.Procs[i].Items[k] = filepath.Join(job.Scen.Cwd, it)
+					}
+				}
+			}
+		}
 		if len(job.RunTo) > 0 {
 			spec.RunTo = job.RunTo
 			spec.RunToHow = job.RunToHow
@@ -640,6 +649,9 @@ func (r *runner) report(v Violation, s *vs.Sched) {
 }
 
 func (r *runner) normalise(v *Violation) {
+	// scipipe's own log lines carry the wall-clock time: not part of what is compared
+	v.Detail = logStamp.ReplaceAllString(v.Detail, "")
+	v.Signature = logStamp.ReplaceAllString(v.Signature, "")
 	if v.Prop != r.job.Prop {
 		// an auxiliary oracle of another property fired inside this property's check
 		v.Class = strings.ToLower(v.Prop) + ":" + v.Class
